@@ -3,7 +3,7 @@
   Theorems on the handler model (Proofs/SolOutLemmas.lean):
   * `crossed_all/positive/negative`, `crossed_of_strict` : the direction filter means what the enum says, in the order
     of integration (`left` = value at the earlier accepted point whatever the sign of the step).
-  * `locate_left/right` : endpoint shortcuts return the stored state of that endpoint; `locate_state_is_interp` : in the
+  * `locate_left/right` : an exact zero of the event function at an end of the step is reported there with the stored state (no comparison of event values with a time tolerance); `locate_state_is_interp` : in the
     Brent branch the reported state is the step interpolant evaluated at the reported time.
   * `processEvs_prefix` : events are recorded in sorted (chronological) order, a terminal event cuts the list.
   The Brent iteration itself (root accuracy, staying inside the step) is tied by co-simulation and monitored on the
